@@ -424,7 +424,23 @@ EXTRA_TEXT = {
         'by send_cmd_recv_rsp has passed check_crc_a (pn532, rcs380).',
  'C18': ' A failing mute() leaves no stale target (every raises clause of sense() says self.target is None); the card '
         'emulation loop ends when the link broke (exchange() returned None) and never processes a missing command.',
- 'C05': ' The C11 codec contracts (I/RR/RNR encode, decode at any offset, aggregation round trips) are obligations here too.',
+ 'C04': ' Since round 7: Target.exchange reassembly - what is returned is every information field received during the '
+        'call, in order (ghost stream in the transport contract, loop invariants over both loops, any number of chained '
+        'requests); the initiator-side exchange contracts of the drivers (C13: a chip status other than timeout is a '
+        'TransmissionError, never a ProtocolError - what NFC-DEP retries on) are obligations here too.',
+ 'C12': ' The initiator-side exchange contracts of the drivers (C13 error kinds) are obligations here too.',
+ 'C10': ' llc.send/sendto keep the connection MIU of a connection socket (not the link MIU) and refuse longer messages; '
+        'the numeric TLVs (MIUX, RW, ...) are decoded as an independent reading says (reserved bits never reach a MIU).',
+ 'C11': ' Parameter.decode of the numeric TLVs (VERSION, MIUX, WKS, LTO, RW, OPT) against an independent reading.',
+ 'C19': ' Parameter.decode of the numeric TLVs against an independent reading; a PN53x family Target programs its '
+        'receiver with DSI and its transmitter with DRI of the PSL_REQ, also when they differ.',
+ 'C20': ' FeliCa Lite / Lite-S _protect: after a successful protect(password) the card key block holds the key '
+        'authenticate(password) derives (Lite-S for the empty password and None); an NDEF read with MAC that does not '
+        'verify yields no NDEF (Type 3 reader contracts of C08 registered here).',
+ 'C03': ' Type 2 format() over the same abstract memory image (nothing before the length field, nothing behind the data '
+        'area changes after any prefix of the flush, also with the empty TLV at the very end of the data area). Bounded, '
+        'not counted: FelicaStandard.dump() leaves the tag object on the system it polled last.',
+ 'C05': ' llc.send/sendto keep the connection MIU. The C11 codec contracts (I/RR/RNR encode, decode at any offset, aggregation round trips) are obligations here too.',
  'C06': ' The C11 codec contracts (I PDU decode at any offset of an aggregated frame, round trips) are obligations here too.',
  'C17': ' The C11 codec contracts (UI/SNL encode and decode at any offset) are obligations here too.',
 }
